@@ -27,14 +27,26 @@ def expected_duration(case):
 def run_one(case):
     """-> (result dict | None, status) status in ok | watchdog | crashed"""
     budget = expected_duration(case) * 6 + 40
+    # own session: on a watchdog the whole group (the case and the workers it forked) is removed, nothing is left sleeping
+    p = subprocess.Popen([sys.executable, EQCASE, json.dumps(case)], stdout=subprocess.PIPE, stderr=subprocess.PIPE, text=True,
+                         env=dict(os.environ, VERIF_REPO=env.REPO), start_new_session=True)
     try:
-        p = subprocess.run([sys.executable, EQCASE, json.dumps(case)], capture_output=True, text=True, timeout=budget,
-                           env=dict(os.environ, VERIF_REPO=env.REPO))
-    except subprocess.TimeoutExpired as ex:
-        return {'stderr': (ex.stderr or b'')[-2000:].decode('utf-8', 'replace') if isinstance(ex.stderr, bytes) else str(ex.stderr)[-2000:]}, 'watchdog'
-    lines = [l for l in p.stdout.splitlines() if l.startswith('{')]
+        so, se = p.communicate(timeout=budget)
+    except subprocess.TimeoutExpired:
+        import signal
+        try:
+            os.killpg(p.pid, signal.SIGKILL)
+        except OSError:
+            pass
+        p.kill()
+        try:
+            so, se = p.communicate(timeout=10)
+        except Exception:
+            so, se = '', ''
+        return {'stderr': (se or '')[-2000:]}, 'watchdog'
+    lines = [l for l in so.splitlines() if l.startswith('{')]
     if p.returncode != 0 or not lines:
-        return {'stderr': p.stderr[-2000:], 'returncode': p.returncode}, 'crashed'
+        return {'stderr': se[-2000:], 'returncode': p.returncode}, 'crashed'
     return json.loads(lines[-1]), 'ok'
 
 
